@@ -278,3 +278,33 @@ def memokey_ok(x, y, w, h, cache):
     value = (x % w, y % h)
     cache[key] = value
     return value
+
+
+import copy
+
+
+class Record(object):
+    def __init__(self, name):
+        self.name = name
+        self.fields = {}
+
+
+_records = {}
+
+
+def shallowcache1(name):
+    try:
+        rec = _records[name]
+    except KeyError:
+        rec = Record(name)
+        _records[name] = rec
+    return copy.copy(rec)
+
+
+def shallowcache_ok(name):
+    try:
+        rec = _records[name]
+    except KeyError:
+        rec = Record(name)
+        _records[name] = rec
+    return copy.deepcopy(rec)
